@@ -230,9 +230,20 @@ def _run(args):
 
 
 def load_triage():
+    """survivors.json: {"*" | "Cxx": [[regex over the mutant description, reason], ...]} - classes of surviving mutants that were read
+    and found equivalent, outside the property's text, or numeric-only (a clause declared not decided)"""
     if os.path.exists(TRIAGE):
         return json.load(open(TRIAGE))
     return {}
+
+
+def triage_reason(table, prop, desc):
+    import re
+    for key in (prop, "*"):
+        for pat, why in table.get(key, []):
+            if re.search(pat, desc):
+                return why
+    return None
 
 
 def sweep(prop, repo, funcs, jobs=16, limit=1500):
@@ -242,7 +253,7 @@ def sweep(prop, repo, funcs, jobs=16, limit=1500):
         muts = [muts[int(i * step)] for i in range(limit)]
     with ProcessPoolExecutor(max_workers=jobs) as ex:
         res = list(ex.map(_run, [(prop, rel, text, repo.root) for _, rel, _, text in muts], chunksize=4))
-    triage = load_triage().get(prop, {})
+    triage_tab = load_triage()
     rep = sum(1 for r, _ in res if r == "reported")
     unr = sum(1 for r, _ in res if r == "unrecognised")
     crashed = [(m[0], m[2], info) for m, (r, info) in zip(muts, res) if r == "crashed"]
@@ -251,7 +262,7 @@ def sweep(prop, repo, funcs, jobs=16, limit=1500):
     res = [(r if r != "crashed" else "unrecognised", [] if r == "crashed" else x) for r, x in res]
     unr = sum(1 for r, _ in res if r == "unrecognised")
     surv = [(m[0], m[2]) for m, (r, _) in zip(muts, res) if r == "survived"]
-    untriaged = [(i, d) for i, d in surv if i not in triage]
+    untriaged = [(i, d) for i, d in surv if triage_reason(triage_tab, prop, d) is None]
     by_rule = {}
     for _, rules in res:
         for r in rules:
